@@ -166,42 +166,77 @@ Definition out_agree (st' : stateF) (o : out V) (ob : oobs) : option nat :=
   | _, _ => Some ERRMISMATCH
   end.
 
-Fixpoint chk_steps (n0 : nat) (st : stateF) (ops : list (op V)) (obs : list sobs) : nat :=
+(* K-level operation: an operation of the machine, or a call of a SECOND map alive in the same world (the
+   reverse map ExchangeMap(tgt, ref, s)): the same `call` run on the shared heap / handle list with the other
+   map object swapped in.  The theorems speak of one map; the second one is only executed here. *)
+Inductive kop := KOp (o : op V) | KRev (h : nat).
+
+Definition kop_indet (st : stateF) (o : kop) : bool :=
+  match o with
+  | KOp o => op_indet st o
+  | KRev h => op_indet st (Call h)
+  end.
+
+Definition kstep (st : stateF) (mb : option (emap V F)) (o : kop) : stateF * option (emap V F) * out V :=
+  match o with
+  | KOp o => let so := stepF st o in (fst so, mb, snd so)
+  | KRev h =>
+      match mb with
+      | None => (st, mb, OCall (Err EStop))
+      | Some b =>
+          let so := stepF (mkSt (s_heap st) (s_objs st) b) (Call h) in
+          (mkSt (s_heap (fst so)) (s_objs (fst so)) (s_map st), Some (s_map (fst so)), snd so)
+      end
+  end.
+
+Fixpoint chk_steps (n0 : nat) (st : stateF) (mb : option (emap V F)) (ops : list kop) (obs : list sobs) : nat :=
   match ops, obs with
   | [], [] => AGREE
   | o :: ops', ob :: obs' =>
-      if op_indet st o then INDET else
-      let so := stepF st o in
-      let st' := fst so in
-      match out_agree st' (snd so) (o_out ob) with
+      if kop_indet st o then INDET else
+      let '(st', mb', r) := kstep st mb o in
+      match out_agree st' r (o_out ob) with
       | Some c => c
       | None =>
           if gheap_agree n0 0 (gro (s_heap st)) (gro (s_heap st')) (gexpand (o_g ob)) &&
              theap_agree (top (s_heap st)) (top (s_heap st')) (texpand (o_t ob)) &&
              nat_list_eqb (map fst (e_refsys (s_map st'))) (o_keys ob)
-          then chk_steps n0 st' ops' obs' else DISAGREE
+          then chk_steps n0 st' mb' ops' obs' else DISAGREE
       end
   | _, _ => DISAGREE
   end.
 
 (* h is the heap observed BEFORE the map is built.  bobs: None = the construction succeeded, with bg / bt what
    it did to the observable heap (nothing, in the model: every cell must be `Same`), `keys0` the keys of
-   _refsystems and `eq0` the anchor of every target atom; Some e = it raised *)
-Definition chk_c04 (h : heap V) (objs : list mol) (ref tgt : mol)
+   _refsystems and `eq0` the anchor of every target atom; Some e = it raised.  rev: a reverse map
+   ExchangeMap(tgt, ref, s) is built right after the forward one. *)
+Definition chk_c04 (h : heap V) (objs : list mol) (ref tgt : mol) (rev : bool)
     (bobs : option err) (bg : list gobs) (bt : list tobs)
-    (keys0 eq0 : list nat) (ops : list (op V)) (obs : list sobs) : nat :=
-  if mol_indet h ref then INDET else
+    (keys0 eq0 : list nat) (ops : list kop) (obs : list sobs) : nat :=
+  if mol_indet h ref || (rev && mol_indet h tgt) then INDET else
   match buildF h objs ref tgt, bobs with
   | Err e, Some e' => if err_eqb e e' then AGREE else ERRMISMATCH
   | Ok st, None =>
       match mol_positions V h ref, mol_positions V h tgt with
       | Ok rps, Ok tps =>
           if existsb (closest_indet rps (map fst (e_refsys (s_map st)))) tps then INDET else
-          if gheap_agree (length (gro h)) 0 (gro h) (gro (s_heap st)) (gexpand bg) &&
-             theap_agree (top h) (top (s_heap st)) (texpand bt) &&
-             nat_list_eqb (map fst (e_refsys (s_map st))) keys0 &&
-             nat_list_eqb (map fst (e_ec (s_map st))) eq0
-          then chk_steps (length (gro h)) st ops obs else DISAGREE
+          let mbr := if rev then
+                       match buildF h objs tgt ref with
+                       | Ok sb => if existsb (closest_indet tps (map fst (e_refsys (s_map sb)))) rps
+                                  then Err EStop else Ok (Some (s_map sb))
+                       | Err e => Err e
+                       end
+                     else Ok None in
+          match mbr with
+          | Err EStop => INDET
+          | Err _ => ERRMISMATCH
+          | Ok mb =>
+            if gheap_agree (length (gro h)) 0 (gro h) (gro (s_heap st)) (gexpand bg) &&
+               theap_agree (top h) (top (s_heap st)) (texpand bt) &&
+               nat_list_eqb (map fst (e_refsys (s_map st))) keys0 &&
+               nat_list_eqb (map fst (e_ec (s_map st))) eq0
+            then chk_steps (length (gro h)) st mb ops obs else DISAGREE
+          end
       | _, _ => ERRMISMATCH
       end
   | _, _ => ERRMISMATCH
